@@ -192,6 +192,38 @@ KERNELS.append(dict(name="get_offset", file="buildblock/ProjDataFromStream.cxx",
     bind_fun=_PD_FUN, enum_types=["ProjDataFromStream::StorageOrder"], fields_header="stir/ProjDataFromStream.h",
     wide_int=True, error_calls=True, outputs=["$return"], ret="Int"))
 
+# ---- C20: FanProjData / GeoData3D / DetPairData of ML_norm.cxx — which element of the underlying array an access goes to, the
+#      membership tests, and the index ranges the constructors allocate
+_ML = dict(file="buildblock/ML_norm.cxx")
+_FAN_BIND = {"(*this)[ra][a].get_min_index()": ("param", "loRb_ra"), "(*this)[ra][a].get_max_index()": ("param", "maxRb_ra")}
+_FANF = {"get_min_b": "minB", "get_max_b": "maxB"}
+KERNELS.append(dict(_ML, name="fan_key", cls="FanProjData", function="operator()", const_method=True, mode="function", index_tuple=4,
+    params=[("num_detectors_per_ring", "Int"), ("minB", "Int → Int"), ("ra", "Int"), ("a", "Int"), ("rb", "Int"), ("b", "Int")],
+    bind={}, bind_fun=_FANF, outputs=["$return"], ret="Int"))
+KERNELS.append(dict(_ML, name="fan_is_in_data", cls="FanProjData", function="is_in_data", mode="function",
+    params=[("num_detectors_per_ring", "Int"), ("minB", "Int → Int"), ("maxB", "Int → Int"), ("loRb_ra", "Int"), ("maxRb_ra", "Int"),
+            ("ra", "Int"), ("a", "Int"), ("rb", "Int"), ("b", "Int")],
+    bind=dict(_FAN_BIND), bind_fun=_FANF, outputs=["$return"], ret="Bool"))
+KERNELS.append(dict(_ML, name="fan_min_rb", cls="FanProjData", function="get_min_rb", mode="function",
+    params=[("max_ring_diff", "Int"), ("ra", "Int")], bind={}, outputs=["$return"], ret="Int"))
+KERNELS.append(dict(_ML, name="fan_ctor_rb_range", cls="FanProjData", function="FanProjData", nparams=4, mode="call_args", marker="fan_indices[ra][a].grow", nargs=2,
+    params=[("num_rings", "Int"), ("max_ring_diff", "Int"), ("ra", "Int")], bind={}, outputs=[], ret="Int"))
+KERNELS.append(dict(_ML, name="fan_ctor_b_range", cls="FanProjData", function="FanProjData", nparams=4, mode="call_args", marker="fan_indices[ra][a][rb]", nargs=2,
+    params=[("num_detectors_per_ring", "Int"), ("half_fan_size", "Int"), ("a", "Int")], bind={}, outputs=[], ret="Int"))
+KERNELS.append(dict(_ML, name="geo_key", cls="GeoData3D", function="operator()", const_method=True, mode="function", index_tuple=4,
+    params=[("num_detectors_per_ring", "Int"), ("minB", "Int → Int"), ("ra", "Int"), ("a", "Int"), ("rb", "Int"), ("b", "Int")],
+    bind={}, bind_fun=_FANF, outputs=["$return"], ret="Int"))
+KERNELS.append(dict(_ML, name="geo_ctor_rb_range", cls="GeoData3D", function="GeoData3D", nparams=4, mode="call_args", marker="fan_indices[ra][a].grow", nargs=2,
+    params=[("num_rings", "Int"), ("ra", "Int")], bind={}, outputs=[], ret="Int"))
+KERNELS.append(dict(_ML, name="geo_ctor_b_range", cls="GeoData3D", function="GeoData3D", nparams=4, mode="call_args", marker="fan_indices[ra][a][rb]", nargs=2,
+    params=[("num_detectors_per_ring", "Int"), ("a", "Int")], bind={}, outputs=[], ret="Int"))
+KERNELS.append(dict(_ML, name="dp_key", cls="DetPairData", function="operator()", const_method=True, mode="function", index_tuple=2,
+    params=[("num_detectors", "Int"), ("minB", "Int → Int"), ("a", "Int"), ("b", "Int")],
+    bind={}, bind_fun={"get_min_index": "minB", "get_max_index": "maxB"}, outputs=["$return"], ret="Int"))
+KERNELS.append(dict(_ML, name="dp_is_in_data", cls="DetPairData", function="is_in_data", mode="function",
+    params=[("num_detectors", "Int"), ("minB", "Int → Int"), ("maxB", "Int → Int"), ("a", "Int"), ("b", "Int")],
+    bind={}, bind_fun={"get_min_index": "minB", "get_max_index": "maxB"}, outputs=["$return"], ret="Bool"))
+
 
 class Reject(Exception):
     """the kernel leaves the supported subset / cannot be located"""
@@ -865,6 +897,11 @@ class Translator:
                 return [line]
             if "$return" not in self.spec["outputs"]:
                 self.reject(n, "`return <value>` in a kernel whose contract has no `$return` output")
+            if self.spec.get("index_tuple"):
+                # `return c ? (*this)[i1]…[ik] : (*this)[j1]…[jk]`: the result is the tuple of indices of the element that is accessed
+                line = pad + "return " + self.index_tuple(ch[0], self.spec["index_tuple"])
+                self.assigned = ALL
+                return [line]
             if self.spec.get("new_classes") is not None:
                 # `return new C(a, b, …)`: the result is (index of class C, slot 0, …, slot 3); the contract says, per class, which
                 # constructor argument goes to which slot (slots without an argument are 0)
@@ -894,6 +931,19 @@ class Translator:
             self.assigned = ALL
             return [line]
         self.reject(n, "unsupported statement")
+
+    def index_tuple(self, n, arity):
+        m = strip_casts(n)
+        if m.get("kind") == "ConditionalOperator":
+            c, a, b = kids(m)
+            return "(if %s then %s else %s)" % (self.as_bool(self.expr(c))[0], self.index_tuple(a, arity), self.index_tuple(b, arity))
+        idx = []
+        while m.get("kind") == "CXXOperatorCallExpr" and len(kids(m)) == 3 and strip_casts(kids(m)[0]).get("referencedDecl", {}).get("name") == "operator[]":
+            idx.append(self.as_int(self.expr(kids(m)[2]))[0])
+            m = strip_casts(kids(m)[1])
+        if unparse(m) not in ("*this", "(*this)") or len(idx) != arity:
+            self.reject(n, "returned element is not `(*this)[i1]…[i%d]`" % arity)
+        return "(" + ", ".join(reversed(idx)) + ")"
 
     def for_stmt(self, n, ch, ind):
         """`for (int i = lo; i < hi; i++) body` (also `<=`, `++i`): a counted loop whose bounds do not depend on what the body
@@ -961,6 +1011,10 @@ class Translator:
     def out_type(self):
         if self.spec.get("error_calls"):
             return "Int × " + self.spec["ret"]
+        if self.spec.get("index_tuple"):
+            return " × ".join(["Int"] * self.spec["index_tuple"])
+        if self.spec.get("mode") == "call_args":
+            return " × ".join(["Int"] * self.spec["nargs"])
         if self.spec.get("new_classes") is not None:
             return " × ".join(["Int"] * (1 + self.spec["new_slots"]))
         tys = []
@@ -1019,11 +1073,16 @@ def find_function(docs, spec, repo):
     want = os.path.abspath(os.path.join(repo, "src", spec["file"]))
     found = []
     for d in docs:
-        if d.get("kind") in ("CXXMethodDecl", "FunctionDecl") and d.get("name") == spec["function"] \
+        if d.get("kind") in ("CXXMethodDecl", "FunctionDecl", "CXXConstructorDecl") and d.get("name") == spec["function"] \
                 and any(c.get("kind") == "CompoundStmt" for c in kids(d)):
             f = d.get("loc", {}).get("expansionLoc", d.get("loc", {})).get("file")
-            if f and os.path.abspath(f) == want:
-                found.append(d)
+            if not (f and os.path.abspath(f) == want):
+                continue
+            if "nparams" in spec and len([c for c in kids(d) if c.get("kind") == "ParmVarDecl"]) != spec["nparams"]:
+                continue     # overload selected by its number of parameters
+            if "const_method" in spec and d.get("type", {}).get("qualType", "").rstrip().endswith(" const") != spec["const_method"]:
+                continue     # const / non-const overload
+            found.append(d)
     if len(found) != 1:
         raise Reject("kernel %s: expected exactly one definition of %s::%s in src/%s, found %d"
                      % (spec["name"], spec["cls"], spec["function"], spec["file"], len(found)))
@@ -1141,6 +1200,38 @@ def translate_kernel(spec, docs, field_docs, repo):
         tr.spec = spec
         lines = tr.translate_body(nodes)
         what = "then-branch of `if (… == \"%s\")`" % spec["if_literal"]
+    elif mode == "call_args":
+        # the integer arguments of the unique call `<marker>(…)` (a member call such as `idx[ra][a].grow(lo, hi)`) or of the object
+        # constructed on the right of the unique assignment `<marker> = T(lo, hi)`; enclosing loop variables are contract parameters,
+        # `const int` locals of the enclosing blocks are hoisted
+        hits = []
+        def walk(x):
+            if not isinstance(x, dict):
+                return
+            k = x.get("kind")
+            c = kids(x)
+            if k == "CXXMemberCallExpr" and c and c[0].get("kind") == "MemberExpr" and unparse(c[0]) == spec["marker"]:
+                hits.append(c[1:])
+            elif k == "CXXOperatorCallExpr" and len(c) == 3 and strip_casts(c[0]).get("referencedDecl", {}).get("name") == "operator=" \
+                    and unparse(strip_casts(c[1])) == spec["marker"]:
+                r = strip_casts(c[2])
+                while r.get("kind") in ("CXXFunctionalCastExpr", "CXXBindTemporaryExpr", "ImplicitCastExpr", "MaterializeTemporaryExpr") and kids(r):
+                    r = strip_casts(kids(r)[0])
+                if r.get("kind") in ("CXXTemporaryObjectExpr", "CXXConstructExpr"):
+                    hits.append(kids(r))
+            for y in x.get("inner", []):
+                walk(y)
+        walk(body)
+        if len(hits) != 1:
+            raise Reject("kernel %s: expected exactly one `%s(…)` / `%s = T(…)` in %s, found %d" % (spec["name"], spec["marker"], spec["marker"], spec["function"], len(hits)))
+        args = [a for a in hits[0] if a.get("kind") != "CXXDefaultArgExpr"]
+        if len(args) != spec["nargs"]:
+            raise Reject("kernel %s: `%s` has %d arguments, the contract expects %d" % (spec["name"], spec["marker"], len(args), spec["nargs"]))
+        vals = [tr.as_int(tr.expr(a))[0] for a in args]
+        line = loc_of(args[0])[1]
+        hoist = ["  let %s : %s := %s  -- const local of the enclosing function (line %s)" % (nm, ty, tx, ln) for nm, ty, tx, ln in tr.hoisted]
+        lines = [tr.signature() + " Id.run do"] + hoist + ["  return (" + ", ".join(vals) + ")"]
+        what = "arguments of `%s`" % spec["marker"]
     elif mode == "cond_else":
         rets = []
         find_all(body, "ReturnStmt", rets)
